@@ -67,10 +67,14 @@ template <typename R> std::string out(const R & r, std::size_t M) {
   for (std::size_t q = 0; q < M; ++q) os << (q ? " " : "") << bits(r[q]);
   return os.str();
 }
-template <typename R> void words(std::ostringstream & os, const R & r, std::size_t M) {
+template <typename R>
+  requires requires(const R & r, std::size_t q) { bits(r[q]); }
+void words(std::ostringstream & os, const R & r, std::size_t M) {
   for (std::size_t q = 0; q < M; ++q) os << " " << bits(r[q]);
 }
-template <std::size_t N, typename T, typename Mx> void matWords(std::ostringstream & os, const Mx & m) {
+template <std::size_t N, typename T, typename Mx>
+  requires requires(const Mx & m, std::size_t i) { static_cast<T>(m(i, i)); }
+void matWords(std::ostringstream & os, const Mx & m) {
   for (std::size_t i = 0; i < N; ++i) for (std::size_t j = 0; j < N + 1; ++j) os << " " << bits(static_cast<T>(m(i, j)));
 }
 
